@@ -170,6 +170,46 @@ def _c10_tasks(tier, seed):
     return out
 
 
+def _c16_tasks(tier, seed):
+    out = []
+    n = 3 if tier == "quick" else 40
+    for fam in range(N_FAM):
+        for i in range(n):
+            out.append(("unit_c16", (fam, seed * 1009 + i, False)))
+            if fam in BUF_FAMS:
+                out.append(("unit_c16", (fam, seed * 1009 + i, True)))
+    return out
+
+
+def _c18_tasks(tier, seed):
+    out = []
+    n = 2 if tier == "quick" else 25
+    for fam in range(N_FAM):
+        for i in range(n):
+            out.append(("unit_c18_family", (fam, seed * 1013 + i)))
+            out.append(("unit_c18_attr", (fam, seed * 1013 + i)))
+        out.append(("unit_c18_routes", (fam, seed)))
+    return out
+
+
+SPECIAL["c18"] = _c18_tasks
+PROPS["C18"] = dict(
+    suites=[("unit_seq_corr", ["single", "ext"], 30, 500, 28), dict(unit="c18", special="c18")],
+    rule="family closure: on all 9 families, after every kind of entry point - including assigning synced dicts/lists/children of ANOTHER family - and after reloads that change "
+         "container kinds, every container below the root must be an instance of the root family's dict/list class and a mutation at the deepest node must reach the backend; "
+         "attribute routing on the six attribute-access dict classes at depth 0-2: keys drawn from every protected name, public method names, dunders, non-identifiers and "
+         "ordinary keys x {get,set,del} x {attribute, item} syntax against a twin driven through item syntax; route correspondence of every key x {get,set,del} with SC/Attr.lean",
+    assumptions=SEQ_ASSUME + ["Python's attribute lookup order (instance dict / class attributes before __getattr__) is modelled, not verified"])
+SPECIAL["c16"] = _c16_tasks
+PROPS["C16"] = dict(
+    suites=[("unit_seq_corr", ["single", "multi"], 40, 600, 28), dict(unit="c16", special="c16")],
+    rule="identity audit on the real classes: for every entry point (constructor data, __setitem__ incl. slices, setdefault, update in its three call forms, "
+         "reset, append, extend, insert, +=) x target {root, nested child} x all 9 families (buffered families also inside buffer_backend()): after the call no "
+         "container reachable from the argument is (by id()) one the collection holds internally, no plain container is stored inside, mutating every container "
+         "of the argument afterwards changes neither the collection nor the backend; (), values(), items() return exact built-in types all the way down, disjoint "
+         "from the internals, and mutating them changes nothing; values removed by pop/popitem/del and synced nodes assigned into other positions/collections are "
+         "independent.  Correspondence: handle identities of returned children (numbered by first appearance) agree between model and code.",
+    assumptions=SEQ_ASSUME + ["identity is a modelled notion: node ids in the model, id() of the built-in containers in the implementation"])
 SPECIAL["c09"] = _conc_tasks([("writers", [0, 3, 1, 2])], (14, 1, 160, 6), (80, 2, 2500, 40))
 SPECIAL["c13"] = _conc_tasks([("buffered", [1, 2, 4, 5])], (12, 1, 160, 6), (70, 2, 2500, 40))
 SPECIAL["c14"] = _conc_tasks([("readers", [0, 3, 1, 2])], (14, 1, 160, 6), (80, 2, 2500, 40))
@@ -382,6 +422,24 @@ def replay(prop, path):
         if not bad:
             print("replay: no violation of %s on the current tree" % prop)
         return 1 if bad else 0
+    if payload.get("kind") == "c18":
+        import c18
+        ex = payload["extra"]
+        fn = c18.unit_c18_family if ex.get("unit") == "family" else c18.unit_c18_attr
+        r = fn((ex["fam_index"], ex["seed"]))
+        bad = r.get("violations", [])
+        for v in bad:
+            print("VIOLATION property=%s replay=%s" % (prop, path))
+            print("  " + v["msg"][:600])
+        return 1 if bad else 0
+    if payload.get("kind") == "c16":
+        import c16
+        ex = payload["extra"]
+        r = c16.unit_c16((ex["fam_index"], ex["seed"], ex["buffered"]))
+        for v in r.get("violations", []):
+            print("VIOLATION property=%s replay=%s" % (prop, path))
+            print("  " + v["msg"][:600])
+        return 1 if r.get("violations") else 0
     if payload.get("kind") == "c10":
         import c10
         ex = payload["extra"]
